@@ -18,7 +18,7 @@ RUN_KW = {"quick": dict(timeout_case=150, wall_cap=700), "thorough": dict(timeou
 UNSUPPORTED = {"acq_hedge": "bads.py: 'Acquisition hedge (acquisition portfolio) not supported yet'",
                "fit_lik": "fixed likelihood needs a 'delta' hyperprior that gpyreg does not have",
                "warp_func": "gaussian_process_train.py: 'TODO warp function'",
-               "gp_samples": "docs: only optimisation of hyperparameters is supported", "stobads": "experimental",
+               "gp_samples": "docs: only optimisation of hyperparameters is supported", "stobads": "varied in its own family (with the constructor's gamma_uncertain_interval)",
                "plot": "opens figures", "restarts": "unused", "fun_values": "pre-evaluated values: separate interface",
                "periodic_vars": "separate interface"}
 FRACTIONS = {"gp_mean_percentile": 100.0, "hpd_frac": 1.0, "improvement_quantile": 0.9, "final_quantile": 0.9, "tol_poi": 1.0, "normalpha_level": 1.0}
@@ -114,6 +114,15 @@ def cases(tier, seed):
             # empty (what the library's own error message recommends)
             spec["options"].pop("uncertainty_handling", None)
         out.append({"spec": spec, "fam": fam})
+    # the Sto-BADS acceptance rule (option stobads=True) with and without the constructor's gamma_uncertain_interval argument
+    for j in range(12 if tier == "quick" else 120):
+        rng = gen.rng_for(seed, "C09", 950000 + j)
+        spec = gen.make_spec(rng, D=int(rng.choice([1, 2, 3])), geom=str(rng.choice(["lin", "log", "unb"])), x0mode="in", land=str(rng.choice(["quad", "l1", "rosen"])),
+                             mode=["declared", "he", "auto", "det"][j % 4], options={"stobads": True}, max_fun_evals=int(rng.choice([60, 90])))
+        g_ = [None, 1.0, 2.58][j % 3]
+        if g_ is not None:
+            spec["ctor_extra"] = {"gamma_uncertain_interval": g_}
+        out.append({"spec": spec, "fam": "stobads"})
     ov = option_variation_cases(tier, seed, hard=True)
     out += ov
     # random PAIRS of those variations (two options off their defaults at once), on plain and on rare-path problems
@@ -260,7 +269,7 @@ def summarize(records, tier, seed):
             nt.add((s["noise"]["mode"], s["cons"]["kind"], s["geom"], s["target"]["kind"], tuple(sorted(f & set(RARE)))))
     extra = {"status": C.status_hist(records), "rare_paths_reached_runs": rare,
              "rare_paths_never_reached": [k for k, v in rare.items() if v == 0],
-             "families": {k: sum(1 for r in records if r.get("fam") == k) for k in ("plain", "cons-hard", "dup-pressure", "budget-edge", "plateau", "iter-edge", "tiny-sd", "d1-cons", "option-variation", "option-pairs")},
+             "families": {k: sum(1 for r in records if r.get("fam") == k) for k in ("plain", "cons-hard", "dup-pressure", "budget-edge", "plateau", "iter-edge", "tiny-sd", "d1-cons", "option-variation", "option-pairs", "stobads")},
              "duplicate_merges_total": C.count_sum(records, "duplicate_merges"),
              "completed_runs": sum(1 for r in records if r.get("status") == "ok"),
              "exceptions_by_signature": C.other_property_aborts(records, "C09")}
